@@ -59,6 +59,46 @@ def _self_attr_store(stmt):
     return None
 
 
+def _to_py(v):
+    """E7 value -> python literal (numbers as int when integral, else float)"""
+    from .poly import Rat
+    if isinstance(v, Rat):
+        if not v.is_const():
+            raise AnalysisError("sglib attribute is not a constant: %s" % v.key()[:40])
+        c = v.const_value()
+        return int(c) if c.denominator == 1 else float(c)
+    if isinstance(v, (list, tuple)):
+        return [_to_py(x) for x in v]
+    if hasattr(v, "data") and hasattr(v, "shape"):
+        return _to_py(v.data)
+    if isinstance(v, (str, bool)) or v is None:
+        return v
+    raise AnalysisError("sglib attribute of unsupported kind %r" % (v,))
+
+
+def _evaluate_sglib_class(m, cname, cdef):
+    """fallback for a class whose __init__ is not a list of literal stores: evaluate it (E7) for cell_choice 'standard' and
+    'rhombohedral' -> ({arm: attrs}, default)"""
+    from .objeval import ObjEvaluator, PyRaise
+    from .symeval import RaiseReached
+    node = ast.Constant(value=0)
+    node.lineno = cdef.lineno
+    out = {}
+    ev = ObjEvaluator(m, max_depth=8)
+    for arm in ("standard", "rhombohedral"):
+        try:
+            o = ev.instantiate(cname, [], {"cell_choice": arm}, node)
+        except (PyRaise, RaiseReached) as e:
+            raise AnalysisError("sglib %s(cell_choice=%r) raises" % (cname, arm))
+        out[arm] = {k: _to_py(v) for k, v in o.attrs.items()}
+    try:
+        o = ev.instantiate(cname, [], {}, node)
+        default = _to_py(o.attrs.get("cell_choice"))
+    except (PyRaise, RaiseReached):
+        default = "standard"
+    return out, default
+
+
 def extract_sglib(rel="xfab/sglib.py"):
     """Returns (settings: list[Setting], class_info: dict name -> dict)."""
     m = module(rel)
@@ -67,6 +107,30 @@ def extract_sglib(rel="xfab/sglib.py"):
     for cname, cdef in m.classes.items():
         if not cname.startswith("Sg"):
             continue
+        try:
+            _extract_sglib_class(m, cname, cdef, settings, info)
+        except AnalysisError as first:
+            # not a plain list of literal stores: evaluate the constructor instead
+            try:
+                arms, default = _evaluate_sglib_class(m, cname, cdef)
+            except AnalysisError as second:
+                raise AnalysisError("%s ; evaluation: %s" % (first, second))
+            del settings[len([s_ for s_ in settings if s_.klass != cname]):]
+            two = arms["standard"] != arms["rhombohedral"]
+            info[cname] = {"line": cdef.lineno, "has_r_arm": two, "default": default}
+            for arm in (("standard", "rhombohedral") if two else ("standard",)):
+                s = Setting(cname, arm)
+                s.attrs = dict(arms[arm])
+                s.lines = {a: cdef.lineno for a in s.attrs}
+                missing = [a for a in SG_ATTRS if a not in s.attrs]
+                if missing:
+                    raise AnalysisError("sglib %s (%s): attributes never assigned: %s" % (cname, arm, missing))
+                settings.append(s)
+    return settings, info
+
+
+def _extract_sglib_class(m, cname, cdef, settings, info):
+    if True:
         inits = [n for n in cdef.body if isinstance(n, ast.FunctionDef) and n.name == "__init__"]
         others = [n for n in cdef.body if not (isinstance(n, ast.FunctionDef) and n.name == "__init__")
                   and not (isinstance(n, ast.Expr) and isinstance(n.value, ast.Constant))]
@@ -142,7 +206,6 @@ def extract_sglib(rel="xfab/sglib.py"):
             missing = [a for a in SG_ATTRS if a not in s.attrs]
             if missing:
                 raise AnalysisError("sglib %s (%s): attributes never assigned: %s" % (cname, s.arm, missing))
-    return settings, info
 
 
 def extract_sgdic(rel="xfab/sg.py"):
